@@ -105,6 +105,7 @@ type pgResult struct {
 	rows   [][][]byte
 	tag    string
 	err    string
+	table  string // table the result columns come from
 }
 
 // Serve runs one backend session on conn until EOF.
@@ -940,7 +941,7 @@ func (db *PgDB) exec(sql string, params [][]byte, formats []int16) *pgResult {
 		if err != nil {
 			return fail(err)
 		}
-		res := &pgResult{fields: fields}
+		res := &pgResult{fields: fields, table: t.Name}
 		for _, i := range idx {
 			res.cols = append(res.cols, t.Cols[i].Type)
 		}
